@@ -1,6 +1,7 @@
 import NessaiVerif.Model.Quadrature
 import NessaiVerif.Proofs.Quadrature
 import NessaiVerif.Proofs.InformationReal
+import NessaiVerif.Proofs.QuadBracket
 import Mathlib.Analysis.SpecialFunctions.Log.Basic
 /-
 C02 — evidence and posterior weights equal the documented nested-sampling quadrature.
@@ -428,6 +429,57 @@ example (L₁ L₂ t₁ t₂ : K) :
   · simp [evidence, closedL, closedX, vols, volsFrom, cumprodFrom, trap, avgs, diffs, dot]
     ring
   · simp [weights_eq, vols, volsFrom, cumprodFrom, diffs]
+
+/-! ## Discretisation error of the quadrature -/
+
+/-- **The evidence is bracketed by the Riemann sums, with an explicit width.**  For non-decreasing likelihoods
+`0 ≤ L₁ ≤ … ≤ L_N` and shrinkages in (0,1) (any schedule, both expectation modes), the documented trapezoid evidence is
+the mean of the lower sum `Σ L_{i-1} ΔX_i` and the upper sum `Σ L_i ΔX_i` over the volume intervals (closing interval
+`[0, X_N]` included) — so it lies between them — and the two differ by at most `D · L_N`, where `D` is any bound on the
+interval widths: the exact-arithmetic discretisation error of the estimate is at most half of that.  (The rectangle sum
+accumulated during sampling is the upper sum without the closing interval.) -/
+theorem evidence_bracket [LinearOrder K] [IsStrictOrderedRing K] (ls ts : List K) (hlen : ls.length = ts.length)
+    (hL : NonDecr ([0] ++ ls)) (ht : Unit01 ts) (D : K)
+    (hD : ∀ d ∈ diffs (closedX ts), d ≤ D) :
+    let lo := lowerSum (closedL ls) (diffs (closedX ts))
+    let up := upperSum (closedL ls) (diffs (closedX ts))
+    evidence ls ts = (lo + up) / 2 ∧ lo ≤ evidence ls ts ∧ evidence ls ts ≤ up ∧
+      up - lo ≤ D * ls.getLastD 0 := by
+  have hpw := closed_vols_pairwise ts ht
+  have hpos := diffs_pos_of_pairwise (closedX ts) hpw
+  have hdl : (diffs (closedX ts)).length + 1 = (closedL ls).length := by
+    rw [diffs_length]
+    simp [closedX, closedL, length_vols, hlen]
+  have hnd : NonDecr (closedL ls) := by
+    have := nonDecr_append_last ([0] ++ ls) hL
+    cases ls with
+    | nil => simpa [closedL] using this
+    | cons a rest => simpa [closedL, List.getLastD] using this
+  have hD0 : 0 ≤ D := by
+    have hne : diffs (closedX ts) ≠ [] := by
+      intro h0; rw [h0] at hdl; simp [closedL] at hdl
+    obtain ⟨d, hd⟩ := List.exists_mem_of_ne_nil _ hne
+    exact le_trans (le_of_lt (hpos d hd)) (hD d hd)
+  have avg := dot_avgs (closedL ls) (diffs (closedX ts)) hdl
+  have br := upper_sub_lower_le D hD0 (closedL ls) (diffs (closedX ts)) hdl hnd
+    (fun x hx => ⟨le_of_lt (hpos x hx), hD x hx⟩)
+  have hhead : (closedL ls).headD 0 = 0 := by simp [closedL]
+  have hlast : (closedL ls).getLastD 0 = ls.getLastD 0 := by
+    cases ls with
+    | nil => simp [closedL]
+    | cons a rest => simp [closedL, List.getLastD]
+  simp only [hhead, hlast, sub_zero] at br
+  have e : evidence ls ts = (lowerSum (closedL ls) (diffs (closedX ts)) + upperSum (closedL ls) (diffs (closedX ts))) / 2 := by
+    unfold evidence trap; exact avg
+  refine ⟨e, ?_, ?_, br.2.1⟩
+  · rw [e]; linarith [br.1]
+  · rw [e]; linarith [br.1]
+
+/-- applied: two dead points `1 ≤ 3` with shrinkage 1/2: widths 1/2, 1/4, 1/4 ≤ 1/2, the evidence 11/8 lies between the
+lower sum 1/2 and the upper sum 9/4… and within `D · L_N / 2 = 3/4` of both -/
+example := evidence_bracket (K := ℚ) [1, 3] [1 / 2, 1 / 2] rfl (by simp [NonDecr])
+  (by intro t h; simp at h; subst h; norm_num) (1 / 2)
+  (by intro d hd; simp [closedX, vols, volsFrom, cumprodFrom, diffs] at hd; rcases hd with rfl | rfl | rfl <;> norm_num)
 
 /-! ## The information `H` and the reported uncertainty `sqrt(H / nlive)`
 
